@@ -502,6 +502,7 @@ func c14_3(c *core.Ctx, p *core.Prog) {
 	}
 	// constructor: allocator = NewLimitedAllocator(base, cfg.memLimit)
 	okCtor := false
+	rewritten := ""
 	for _, fn := range arrowRecordFuncs(p) {
 		core.EachInstr(fn, func(i ssa.Instruction) {
 			s, ok := storesTo(i, allocF)
@@ -516,6 +517,33 @@ func c14_3(c *core.Ctx, p *core.Prog) {
 			lim := cl.Call.Args[len(cl.Call.Args)-1]
 			if fa := core.LoadedField(core.StripConv(lim)); fa != nil && strings.Contains(strings.ToLower(core.FieldName(fa)), "limit") {
 				okCtor = true
+				// … and it is the limit the caller configured: once an option was applied, the constructor does not
+				// write the field again (a "0 means default" fix-up replaces a limit the caller asked for)
+				cfgLimit := core.FieldVar(fa)
+				core.EachInstr(fn, func(j ssa.Instruction) {
+					s3, ok := storesTo(j, cfgLimit)
+					if !ok {
+						return
+					}
+					core.EachInstr(fn, func(k ssa.Instruction) {
+						oc, ok := k.(*ssa.Call)
+						if !ok || oc.Call.StaticCallee() != nil || oc.Call.IsInvoke() {
+							return
+						}
+						if _, isB := oc.Call.Value.(*ssa.Builtin); isB {
+							return
+						}
+						takesCfg := false
+						for _, arg := range oc.Call.Args {
+							if pt, ok := arg.Type().(*types.Pointer); ok && types.Identical(pt.Elem(), fa.X.Type().(*types.Pointer).Elem()) {
+								takesCfg = true
+							}
+						}
+						if takesCfg && core.Reachable(fn, oc, s3) {
+							rewritten = p.Pos(s3.Pos())
+						}
+					})
+				})
 			}
 			// and the constructor stores it in the limit field
 			ctor := cl.Call.StaticCallee()
@@ -531,6 +559,8 @@ func c14_3(c *core.Ctx, p *core.Prog) {
 		})
 	}
 	c.Check(okCtor, "ctor", p.Pos(allocF.Pos()), "Consumer", "the consumer's allocator is a LimitedAllocator built from the configured memory limit", "the consumer's allocator is not built from the configured memory limit (WithMemoryLimit would have no effect)")
+	c.Check(rewritten == "", "ctor|as-configured", p.Pos(allocF.Pos()), "Consumer", "the limit field is not written again after the options were applied",
+		"the constructor writes the memory-limit field again after the caller's options were applied ("+rewritten+"): a limit the caller configured (0 or tiny: refuse everything) is replaced, batches are decoded above the limit that was asked for and raising the limit can turn a decodable batch into a refused one")
 	// readers
 	n := 0
 	for _, fn := range arrowRecordFuncs(p) {
@@ -718,6 +748,18 @@ func c14_6(c *core.Ctx, p *core.Prog) {
 		isNew := core.IsPkgFunc(f, arrowIPC, "NewReader")
 		if !isReaderErr && !isNew {
 			return
+		}
+		if isReaderErr {
+			// a pure test of the reader's state (`rd.Err() != nil` and nothing else) hands no error to anybody
+			onlyTested := len(core.Referrers(cl)) > 0
+			for _, r := range core.Referrers(cl) {
+				if b, ok := r.(*ssa.BinOp); !ok || !(core.IsNilConst(b.X) || core.IsNilConst(b.Y)) {
+					onlyTested = false
+				}
+			}
+			if onlyTested {
+				return
+			}
 		}
 		n++
 		var ev ssa.Value = cl
